@@ -189,6 +189,10 @@ func Prepare(c *Case, graphFn func(steps []dag.Step) (*scheduler.ExecutionGraph,
 			steps[i].Stdout, steps[i].Stderr = out, errf
 		case 4:
 			steps[i].Stdout, steps[i].Stderr = out, out
+		case 5:
+			steps[i].Stdout = "/dev/null"
+		case 6:
+			steps[i].Stdout, steps[i].Stderr = "/dev/null", "/dev/null"
 		}
 	}
 	pause := time.Duration(c.PauseUS) * time.Microsecond
